@@ -85,6 +85,7 @@ type vfSession struct {
 	cancel context.CancelFunc
 	done   chan struct{}
 	watchC chan netstate.Change
+	wclosed bool
 }
 
 func vfTOML(cfg map[string]any, names []string) string {
@@ -399,7 +400,7 @@ func vfRunScenario(t *testing.T, rec *vfRec, sc map[string]any) {
 					if vfBool(st, "wire", false) {
 						rt, err := vfRoundTrip(ra)
 						if err != nil {
-							panic(err)
+							panic(fmt.Sprintf("vf: %v", err))
 						}
 						ra = rt
 					}
@@ -419,11 +420,11 @@ func vfRunScenario(t *testing.T, rec *vfRec, sc map[string]any) {
 				}
 				b, err := ndp.MarshalMessage(own)
 				if err != nil {
-					panic(err)
+					panic(fmt.Sprintf("vf: %v", err))
 				}
 				pm, err := ndp.ParseMessage(b)
 				if err != nil {
-					panic(err)
+					panic(fmt.Sprintf("vf: %v", err))
 				}
 				ra := pm.(*ndp.RouterAdvertisement)
 				if vfStr(st, "variant", "same") == "diffhl" {
@@ -451,10 +452,20 @@ func vfRunScenario(t *testing.T, rec *vfRec, sc map[string]any) {
 			cancelled = true
 			stopAll(vfBool(st, "term", false))
 		case "link":
+			if sessions[ifi].wclosed {
+				break // no watcher any more: nothing can be notified
+			}
 			rec.emit("link", "ifi", ifi)
 			select {
 			case sessions[ifi].watchC <- netstate.LinkDown:
 			default:
+			}
+		case "wclose":
+			// the watcher ends: every subscriber channel is closed (C19); for the task that is not a link change
+			rec.emit("wclose", "ifi", ifi)
+			if s := sessions[ifi]; !s.wclosed {
+				s.wclosed = true
+				close(s.watchC)
 			}
 		case "flip":
 			w.mu.Lock()
